@@ -12,6 +12,7 @@
    pair described by c; it returns (outcome, number of revisions copied, new T).
    [closedb U vis]: every parent (that the source has) of a visible revision (that
    the source has) is visible -- the target holds no ghost the source could fill.
+   The find_ghosts=False search is modelled as repaired by /repo be5f5d4.
 
    Which clause of the property is a theorem about this model and which is only a
    correspondence fact is said in notes/C03.md: the theorems are about WHICH records
@@ -22,8 +23,9 @@ From Coq Require Import List Arith Bool.
 From BV Require Import Lib.Dag Theory.DagFacts Model.RepoFetch Theory.RepoFetch.
 Import ListNotations.
 
-(* what is requested: find_ghosts=True asks for exactly the source's ancestors of r the
-   target does not see; find_ghosts=False for those not behind a revision it sees *)
+(* what is requested: exactly the source's ancestors of r the target does not see -- by
+   find_ghosts=True, and (since the repair /repo be5f5d4) by the find_ghosts=False walk whenever
+   the search is exhausted in its first batch of 50 *)
 Theorem C03_search_full :
   forall U vis r a, wf_dag (ug U) = true ->
   (In a (missing_full U vis r) <-> reach (ug U) a r /\ srcp U a = true /\ ~ In a vis).
@@ -32,25 +34,43 @@ Print Assumptions C03_search_full.
 
 Theorem C03_search_walk :
   forall U vis r a, wf_dag (ug U) = true ->
-  (In a (missing_walk U vis r) <->
-   reach (ug U) a r /\ srcp U a = true /\
-   ~ exists h, reach (ug U) h r /\ srcp U h = true /\ In h vis /\ reach (ug U) a h).
+  (In a (missing_walk U vis r) <-> reach (ug U) a r /\ srcp U a = true /\ ~ In a vis).
 Proof. exact missing_walk_spec. Qed.
 Print Assumptions C03_search_walk.
 
-(* on a target without fillable ghosts the two searches request the same revisions *)
 Theorem C03_search_modes_agree :
-  forall U vis r a, wf_dag (ug U) = true -> closedb U vis = true ->
-  (In a (missing_walk U vis r) <-> In a (missing_full U vis r)).
-Proof. exact walk_eq_full_closed. Qed.
+  forall U vis r a, In a (missing_walk U vis r) <-> In a (missing_full U vis r).
+Proof. exact walk_eq_full. Qed.
 Print Assumptions C03_search_modes_agree.
 
-(* completeness: after a successful fetch the target sees r and every ancestor of r the
-   source has; and it is closed again *)
+(* The walk for ANY batch size / history size: [walk_ok U vis r M] = M contains only ancestors of r
+   the target does not see, at least those reached from r without passing through a revision the
+   target sees ([ravoid]), and the walk stopped only at revisions the target sees.  The modelled walk
+   satisfies it; on a target without fillable ghosts every such M is exactly the set of missing
+   ancestors; whatever M, the copied revisions arrive whole. *)
+Theorem C03_walk_model_admissible :
+  forall U vis r, wf_dag (ug U) = true -> walk_ok U vis r (missing_walk U vis r).
+Proof. exact walk_ok_model. Qed.
+Print Assumptions C03_walk_model_admissible.
+
+Theorem C03_walk_any_batching_closed :
+  forall U vis r M a, wf_dag (ug U) = true -> closedb U vis = true -> srcp U r = true ->
+  walk_ok U vis r M -> (In a M <-> In a (missing_full U vis r)).
+Proof. exact walk_ok_closed. Qed.
+Print Assumptions C03_walk_any_batching_closed.
+
+Theorem C03_walk_any_batching_payload :
+  forall U c T r M, wf_univ U = true ->
+  walk_ok U (revs T) r M -> full U T -> full U (insert U c T M).
+Proof. exact walk_ok_keeps_full. Qed.
+Print Assumptions C03_walk_any_batching_payload.
+
+(* completeness: after a successful fetch the target sees r and every ancestor of r the source
+   has -- in both search modes, no hypothesis on the target (formerly guarded by closedb for
+   find_ghosts=False; the guard fell with the repair) -- and a closed target is closed again *)
 Theorem C03_fetch_complete :
   forall U c F T fg r n T', wf_dag (ug U) = true ->
   fetch U c F T fg r = (FOk, n, T') ->
-  fg = true \/ closedb U (vis_of F T) = true ->
   (forall a, reach (ug U) a r -> srcp U a = true -> In a (vis_of F T')) /\
   (closedb U (vis_of F T) = true -> closedb U (vis_of F T') = true).
 Proof. exact fetch_complete. Qed.
@@ -74,14 +94,13 @@ Proof. exact fetch_idempotent. Qed.
 Print Assumptions C03_fetch_idempotent.
 
 (* the payload arrives whole: into an unstacked target in which every revision has its
-   inventory and all the texts it references, every copied revision arrives with its
-   inventory and all the texts the source's inventory references -- for the CHK /
-   inventory-difference text selection (same format) and the by-revision selection
-   (format conversion) alike *)
+   inventory and all the texts it references, every copied revision arrives with its inventory
+   and all the texts the source's inventory references -- for the CHK / inventory-difference
+   text selection (same format) and the by-revision selection (format conversion), both search
+   modes, no hypothesis on the target's ghosts *)
 Theorem C03_payload_equal :
   forall U c F T fg r out n T', wf_univ U = true ->
   fetch U c F T fg r = (out, n, T') -> revs F = [] ->
-  fg = true \/ closedb U (revs T) = true ->
   full U T -> full U T'.
 Proof. exact fetch_keeps_full. Qed.
 Print Assumptions C03_payload_equal.
@@ -103,18 +122,25 @@ Theorem C03_fetch_all_payload :
 Proof. exact fetch_all_keeps_full. Qed.
 Print Assumptions C03_fetch_all_payload.
 
-(* Without the guard both C03_fetch_complete and C03_payload_equal are FALSE for
-   find_ghosts=False: witness = a target {r0, r2} whose r2 has the parent r1 it lacks,
-   a source that has r1, r4 (child of r1) and r5 = merge(r3, r4).  Fetching r5 leaves
-   r1 out although r4 needs it, and r4 arrives without the texts it shares with r1.
-   The real code does the same (candidate finding C03-walk-unfilled-ghost). *)
-Theorem C03_fetch_complete_unclosed_refuted :
-  exists n T', wf_univ wit_U = true /\ full wit_U wit_T /\
-    fetch wit_U wit_c empty_repo wit_T false 5 = (FOk, n, T') /\
-    (reach (ug wit_U) 1 5 /\ srcp wit_U 1 = true /\ ~ In 1 (vis_of empty_repo T')) /\
-    ~ full wit_U T'.
-Proof. exact fetch_walk_unclosed_refuted. Qed.
-Print Assumptions C03_fetch_complete_unclosed_refuted.
+(* Regression statements about the OLD search (before /repo be5f5d4, [missing_walk_old]: the seen
+   ancestors of the revisions the target has were excluded even when the target lacks them): with
+   a target {r0, r2} whose r2 has the parent r1 it lacks and a source that has r1, r4 (child of r1)
+   and r5 = merge(r3, r4), fetching r5 left r1 out and r4 arrived without the texts it shares with
+   r1 (former finding C03-walk-unfilled-ghost).  The repaired search copies r1 and the result is
+   complete. *)
+Theorem C03_old_walk_unclosed_refuted :
+  let T' := insert wit_U wit_c wit_T (missing_walk_old wit_U (revs wit_T) 5) in
+  wf_univ wit_U = true /\ full wit_U wit_T /\
+  (reach (ug wit_U) 1 5 /\ srcp wit_U 1 = true /\ ~ In 1 (revs T')) /\
+  ~ full wit_U T'.
+Proof. exact old_walk_unclosed_refuted. Qed.
+Print Assumptions C03_old_walk_unclosed_refuted.
+
+Theorem C03_walk_unclosed_now_complete :
+  exists T', fetch wit_U wit_c empty_repo wit_T false 5 = (FOk, 4, T') /\
+             In 1 (revs T') /\ full wit_U T'.
+Proof. exact walk_unclosed_now_complete. Qed.
+Print Assumptions C03_walk_unclosed_now_complete.
 
 (* the hypotheses are satisfiable by non-trivial values: a merge history with a ghost,
    a target holding a closed part of it; 4 revisions are copied *)
